@@ -987,7 +987,10 @@ impl Vec3A {
     pub fn rotate_towards(self, rhs: Self, max_angle: f32) -> Self {
         let angle_between = self.angle_between(rhs);
         // When `max_angle < 0`, rotate no further than `PI` radians away
-        let angle = max_angle.clamp(angle_between - core::f32::consts::PI, angle_between);
+        // not `clamp`, which panics when `angle_between` is NaN (zero length or non-finite input)
+        let angle = max_angle
+            .max(angle_between - core::f32::consts::PI)
+            .min(angle_between);
         let axis = self
             .cross(rhs)
             .try_normalize()
